@@ -12,7 +12,11 @@ package harness
 // before the tx arrives, for half of the in-between changes — by governance proposals run through
 // the real x/msgfees message handlers (txfee_gov_test.go): usd rate, conversion denom, fees added /
 // updated / removed, one or two messages per proposal, a minority refused by the keeper.  The
-// declared fee is chosen against the configuration the proposals leave behind.
+// declared fee is chosen against the configuration the proposals leave behind — below / at / above
+// it, far above it (`wayabove`: a failed transaction still costs floor x gas only), or at what the
+// messages of voted-down / discarded proposals would have required had they stayed written
+// (`at_discarded_cfg`).  18% of the proposals are discarded branches: accepted schedule changes
+// followed by a last message the keeper refuses.
 
 import (
 	"fmt"
@@ -257,9 +261,35 @@ func txfeeGen(rng *RNG, out *Out) *txfeeOp {
 		}
 		return cs[rng.Intn(len(cs))].Denom
 	}
+	// the configuration that would be in force if every message the keeper accepted had stayed
+	// written although its proposal failed (it never is in force; a declared fee chosen against it
+	// is simply some other amount — below or above what the real configuration requires)
+	staleD, staleR, staleS := op.convD, op.convR, op.sched
+	for _, p := range op.gov {
+		for _, gm := range p {
+			txfeeGovApply(&staleD, &staleR, &staleS, gm)
+		}
+	}
+	staleNeed, _ := txfeeNeedsOf(body, staleS, payfee, staleD, staleR)
+	effNeed, _ := txfeeNeedsOf(body, effS, payfee, effD, effR)
+	staleDiffers := txfeeCoinsStr(staleNeed.coins()) != txfeeCoinsStr(effNeed.coins())
 	switch m := rng.Intn(100); {
-	case m < 38:
+	case staleDiffers && m < 50:
+		mode = "at_discarded_cfg"
+		declared = staleNeed.clone()
+		declared.add(floorDenom, base)
+	case m < 30:
 		mode = "at"
+	case m < 38:
+		// far above what is required (a client that does not estimate): what a failed transaction
+		// costs is floor price x gas limit however much was declared
+		mode = "wayabove"
+		slack := Pick(rng, []*big.Int{
+			new(big.Int).Mul(msgfeesDefaultFloor.Amount.BigInt(), new(big.Int).SetUint64(op.gas)),
+			new(big.Int).Add(base, big.NewInt(1)),
+			new(big.Int).Mul(big.NewInt(5000), new(big.Int).SetUint64(op.gas)),
+			big.NewInt(1_000_000_000_000)})
+		declared.add(Pick(rng, []string{floorDenom, "nhash", "nhash"}), slack)
 	case m < 58:
 		mode = "above"
 		d := pickDenom(declared)
@@ -673,6 +703,14 @@ func txfeeGenGov(rng *RNG, out *Out, convD string, convR uint64, sched []txfeeSc
 		if rng.Chance(30) {
 			nm = 2
 		}
+		// a proposal whose schedule-changing messages all go through and whose LAST message the keeper
+		// refuses: gov throws the branch away, nothing any of the earlier messages wrote may be seen
+		// by any later lookup (store, or whatever sits in front of it)
+		discarded := rng.Chance(18)
+		if discarded {
+			nm = 2 + rng.Intn(2)
+			out.Count("gov:discarded_branch")
+		}
 		for j := 0; j < nm; j++ {
 			var have, free []string
 			for _, ty := range txfeeGovTypes {
@@ -690,7 +728,13 @@ func txfeeGenGov(rng *RNG, out *Out, convD string, convR uint64, sched []txfeeSc
 				return txfeeSched{typ: ty, fee: sdk.Coin{Denom: Pick(rng, feeDenoms), Amount: bigAmt()}, rcp: Pick(rng, rcps), bips: Pick(rng, bipsSet)}
 			}
 			var m txfeeGovMsg
-			switch c := rng.Intn(100); {
+			c := rng.Intn(100)
+			if discarded && j < nm-1 {
+				c = 42 + rng.Intn(48) // add / update / remove that the keeper accepts
+			} else if discarded {
+				c = 90 + rng.Intn(10) // refused
+			}
+			switch {
 			case c < 32:
 				m = txfeeGovMsg{kind: "rate", rate: Pick(rng, []uint64{1, 25, 26, 50, 1000, 40000, 25000000})}
 				out.Count("govmsg:rate")
